@@ -20,6 +20,7 @@ import (
 	"io"
 	"os"
 	"os/exec"
+	"runtime"
 	"sort"
 	"strconv"
 	"strings"
@@ -322,4 +323,16 @@ func main() {
 	sb, _ := json.Marshal(h.Stats)
 	fmt.Fprintf(h.out, "S\t%s\n", sb)
 	h.out.Flush()
+}
+
+// allocsPerRun: average number of heap allocations per call of f (runtime.MemStats.Mallocs delta).
+func allocsPerRun(runs int, f func()) float64 {
+	f() // warm up
+	var m0, m1 runtime.MemStats
+	runtime.ReadMemStats(&m0)
+	for i := 0; i < runs; i++ {
+		f()
+	}
+	runtime.ReadMemStats(&m1)
+	return float64(m1.Mallocs-m0.Mallocs) / float64(runs)
 }
